@@ -31,9 +31,31 @@ PROPS = {
         assumptions=["FakeSession renders SQLite's integer-affinity comparison of a text identifier with the key as "
                      "str(obj.unique_identifier) == uid"],
     ),
+    "C04": dict(
+        modules=["harness.c04"],
+        level="other",
+        explanation="One symbolic step of each real handler from an arbitrary stored state (state, usage-mask bits, "
+                    "revocation code, addressing route symbolic) over a stub store and a recording crypto backend; "
+                    "oracle = reference successor relation and reference gate from the statement. Because the step "
+                    "starts from any storable state, histories of any length are covered by induction.",
+        stubs=["FakeSession", "RecordingCrypto (records calls, canned outputs)", "NullLogger", "engine.time pinned"],
+        outside=["states DESTROYED / DESTROYED_COMPROMISED as pre-states (a destroyed object's row is deleted, so no "
+                 "stored object has them; the step harness asserts every surviving post-state is one of the 4 "
+                 "storable states, which makes that invariant inductive)",
+                 "usage masks are symbolic in the matching bit and in 'all other bits' as one group"],
+        assumptions=["representation invariant: stored state is one of PRE_ACTIVE, ACTIVE, DEACTIVATED, COMPROMISED"],
+    ),
 }
 
 CLAIMS = {
+    "C04": dict(
+        text="For each handler and stored object kind, from every storable state and mask configuration in the "
+             "bounds, the post-state is an allowed successor, only Activate/Revoke/Destroy change state or "
+             "existence, a failed call changes nothing, and the crypto backend is reached only for an Active object "
+             "of the right kind whose mask has the matching bit - shown on every path of the real handler code.",
+        note="Inductive step from an arbitrary stored state; trusts the stub store and the recording backend; masks "
+             "symbolic in 2 groups of bits.",
+    ),
     "C03": dict(
         text="For every policy shape, identity pair, requester-group shape, object type and operation inside the "
              "bounds the real decision function agrees with a reference predicate written from the statement; "
